@@ -263,7 +263,9 @@ func (e *FnLit) Type() *Type      { return e.T }
 
 // ---------------------------------------------------------------- statements
 
-type Stmt interface{ stmt(b *strings.Builder, ind int) }
+type Stmt interface {
+	stmt(b *strings.Builder, ind int)
+}
 
 type Let struct {
 	Name  string
